@@ -7,7 +7,8 @@ import (
 // C09_header_fields: one header field symbolic at a time (their product would only multiply paths):
 // mode 0: every packet type x namespace "" / "/" / "/"+x (x: up to NS symbolic comma-free bytes);
 // mode 1: ack id symbolic (below 10^4 quick / 10^6 thorough: 1..4/6 digits) on EVENT and ACK, with and without namespace;
-// mode 2: attachment count symbolic 0..999 on BINARY_EVENT / BINARY_ACK.
+// mode 2: attachment count symbolic 0..999 on BINARY_EVENT / BINARY_ACK;
+// mode 3: ack id = one of 14 boundary constants up to 2^64-1 (every digit count and both sides of 2^32, 2^53, 2^63, 10^19).
 //
 //verif:unwind 24
 func verifH_C09_header_fields() {
@@ -21,7 +22,15 @@ func verifH_C09_header_fields() {
 	nsp := "/"
 	var id *uint64
 	att := 0
-	switch verifChoose(0, 2) {
+	switch verifChoose(0, 3) {
+	case 3:
+		// ack id boundary constants over the full uint64 range (symbolic 64-bit ids exceed the solver budget: div/mod chains)
+		if verifAnyBool() {
+			typ = parser.PacketTypeAck
+		}
+		ids := []uint64{0, 9, 10, 99999, 1<<32 - 1, 1 << 32, 1 << 53, 1<<63 - 1, 1 << 63, 1<<63 + 1, 12345678912345678912, 1<<64 - 1, 10000000000000000000, 9999999999999999999}
+		v := ids[verifChoose(0, len(ids)-1)]
+		id = &v
 	case 0:
 		tb := verifAnyByte()
 		verifAssume(tb <= 6)
